@@ -147,7 +147,7 @@ class Worker:
             buf += chunk
         return buf
 
-    def call_raw(self, frame, watchdog_s=None, _retry=True):
+    def call_raw(self, frame, watchdog_s=None, _retry=2):
         if self.proc is None or self.proc.poll() is not None or self.count >= self.max_requests:
             self.close()
             self._spawn()
@@ -166,9 +166,9 @@ class Worker:
             self.proc = None
             self.restarts += 1
             if _retry:
-                # a loaded machine can stretch one request past the watchdog: ask again on a fresh process with four
-                # times the allowance before calling it a stall
-                r = self.call_raw(frame, 4 * (watchdog_s or self.watchdog_s), _retry=False)
+                # a loaded machine can stretch one request past the watchdog: ask again on a fresh process, twice, with
+                # four times the allowance each time (30 s -> 2 min -> 8 min) before calling it a stall
+                r = self.call_raw(frame, 4 * (watchdog_s or self.watchdog_s), _retry=_retry - 1)
                 if r.get("outcome") != "timeout":
                     r["slow"] = True
                 return r
